@@ -1,5 +1,5 @@
 #![allow(unused)]
-use vstd::prelude::*;
+use ::vstd::prelude::*;
 //@quote-macros
 //@include prelude/tokens.rs
 //@include prelude/deps.rs
@@ -17,10 +17,10 @@ verus! {
 // U3 — repeat merging (C14)
 // =====================================================================================================
 
-impl vstd::std_specs::core::IndexSpecImpl<&MemberAttrType> for [bool; 5] {
+impl ::vstd::std_specs::core::IndexSpecImpl<&MemberAttrType> for [bool; 5] {
     open spec fn index_req(&self, index: &&MemberAttrType) -> bool { true }
 }
-impl vstd::std_specs::core::IndexSpecImpl<&TraitAttrType> for [bool; 4] {
+impl ::vstd::std_specs::core::IndexSpecImpl<&TraitAttrType> for [bool; 4] {
     open spec fn index_req(&self, index: &&TraitAttrType) -> bool { true }
 }
 
@@ -44,7 +44,7 @@ pub open spec fn tat_idx(t: TraitAttrType) -> int {
 
 mod attr_index2 {
 use super::*;
-use core::ops::Index;
+use ::core::ops::Index;
 //@fn attr.rs <MemberRepeatFor as Index<&MemberAttrType>>::index
 //@props C14
 //@spec
